@@ -143,6 +143,21 @@ func (t *connectTransaction) WillTopic(snWillTopic *snPkts1.WillTopic) error {
 		return nil
 	}
 
+	// An empty WILLTOPIC means "no will" (MQTT-SN specification v. 1.2,
+	// chapter 5.4.7); MQTT does not allow a will without a topic.
+	if snWillTopic.WillTopic == "" {
+		t.mqConnect.WillFlag = false
+		return t.sendConnect()
+	}
+	if !isValidTopicName(snWillTopic.WillTopic) || snWillTopic.QOS > 2 {
+		if err := t.SendConnack(snPkts1.RC_NOT_SUPPORTED); err != nil {
+			return err
+		}
+		err := fmt.Errorf("invalid will topic or QoS: %v", snWillTopic)
+		t.Fail(err)
+		return err
+	}
+
 	t.mqConnect.WillQos = snWillTopic.QOS
 	t.mqConnect.WillRetain = snWillTopic.Retain
 	t.mqConnect.WillTopic = snWillTopic.WillTopic
